@@ -38,7 +38,7 @@ REQUIRED_MONITORS = ["matrix-vs-dense-reference", "vector-vs-dense-reference", "
                      "linearform-equals-Au", "functional-vs-own-sum", "interpolate-vs-own", "elemental-sums",
                      "shape-test-by-trial", "kwarg-spellings-bitwise", "threaded-equals-serial", "complex-dtype",
                      "trilinear-contraction", "with-element-same-domain"]
-REQUIRED_REACH = ["basis:cell", "basis:cell-subset", "basis:facet-boundary", "basis:facet-subset",
+REQUIRED_REACH = ["kwarg:updated-in-place", "basis:cell", "basis:cell-subset", "basis:facet-boundary", "basis:facet-subset",
                   "basis:facet-interior-side1", "basis:interior-side0", "basis:interior-side1", "trial!=test",
                   "kwarg:dofvector", "kwarg:discretefield", "kwarg:rawarray", "kwarg:scalar", "coef:n", "coef:h", "coef:x"]
 
@@ -296,7 +296,9 @@ def one_case(ctx, k, kind):
     bil, lin, fun = make_integrands(terms, ncomp_u)
     dtype = complex if complex_ else np.float64
     z = rng.standard_normal(ub.N)
-    kwargs = {"coef_s": float(rng.integers(1, 9)) / 4}
+    # scalar coefficient over 30 orders of magnitude (physical constants, micro-scale domains): entries far below 1
+    # are entries, not rounding noise
+    kwargs = {"coef_s": float(rng.integers(1, 9)) / 4 * float(2.0 ** rng.choice([0, 0, -50, -25, 30]))}
     uses_field = any(c[0] == "field" for c, _, _ in terms)
     if uses_field:
         kwargs["coef_f"] = ub.interpolate(z)
@@ -383,6 +385,22 @@ def one_case(ctx, k, kind):
             s2 = skfem.Functional(fun, dtype=dtype).assemble(ub, cu=cu, cv=cv, **kw2)
             ctx.check("kwarg-spellings-bitwise", s2 == s, mech=f"kwarg-{nm}-functional", spelling=nm, **tag)
 
+    # the same keyword array object updated in place between two assemblies on the same basis objects (Newton-type
+    # loops do exactly this): the second assembly must see the new values
+    if uses_field and ncomp_u == 1 and np.array(as_tuple(kwargs["coef_f"])[0]).ndim == 2:
+        zz = z.copy()
+        skfem.BilinearForm(bil, dtype=dtype).assemble(ub, vb, **dict(kwargs, coef_f=zz))
+        zz *= -1.5
+        zz += 0.25
+        A3 = skfem.BilinearForm(bil, dtype=dtype).assemble(ub, vb, **dict(kwargs, coef_f=zz))
+        w3 = dict(w, coef_f=own_interpolate(ub, ed_u, zz, (0, "value", ())))
+        Aref3, S3 = dense_reference(ub, vb, ed_u, ed_v, terms, w3)
+        ctx.close("matrix-vs-dense-reference", A3.toarray(), Aref3, rtol=1e-10, scale=float(S3.max()) + 1e-300,
+                  mech="kwarg-array-updated-in-place-not-seen", **tag)
+        s3 = skfem.Functional(fun, dtype=dtype).assemble(ub, cu=cu, cv=cv, **dict(kwargs, coef_f=zz))
+        ctx.close("functional-vs-own-sum", s3, v @ (Aref3 @ u), rtol=1e-9, scale=float(np.abs(v) @ S3 @ np.abs(u)) + 1e-300,
+                  mech="kwarg-array-updated-in-place-not-seen:functional", **tag)
+        ctx.reached("kwarg:updated-in-place")
     # threads
     if k % 2 == 0:
         for nth in (1, 2, 5):
